@@ -162,8 +162,8 @@ def run_check(prop, tier, seed, jobs=None, overrides=None, quiet=False, repo=REP
             if shards > 1:
                 for k in range(shards):
                     tasks.append((modname, name, tier, ov_key, overrides, (k, shards)))
-            elif timings.get(name, 0) > 60:
-                n = min(8, int(timings[name] // 40) + 1)       # slow harness: split by the first decisions of a path
+            elif timings.get(name, 0) > 90:
+                n = min(6, int(timings[name] // 60) + 1)       # slow harness: split by the first decisions of a path
                 for k in range(n):
                     tasks.append((modname, name, tier, ov_key, overrides, (k, n, "prefix", 8)))
             else:
